@@ -101,7 +101,9 @@ static void locality_case(unsigned pm, const unsigned long *cw, const uint64_t *
     else nodes[k] = NULL;      /* a node directory that could not be read */
   }
   uint64_t d2[NB * NB]; for (unsigned k = 0; k < NB * NB; k++) d2[k] = dist[k];
+  VP_SYMBOLIC_PHASE(1);      /* 1-word sets: growing a bitmap is unreachable (the realloc model asserts it) */
   int r = fixup_cpuless_node_locality_from_distances(i, NB, nodes, d2);
+  VP_SYMBOLIC_PHASE(0);
   unsigned min = 0; int have = 0;
   for (unsigned j = 0; j < NB; j++) if (j != i && present[j]) { unsigned d = (unsigned) dist[i * NB + j]; if (!have || d < min) { min = d; have = 1; } }
   unsigned long expect = cw[i];
